@@ -52,11 +52,14 @@ def pipeline(ctx, fresh=True):
         except Exception:
             sim = []
         seen = set()
+        extra = []
         for v in sim:
             k = json.dumps(v["ops"])
             if k not in seen:
                 seen.add(k)
-                sample.append(v)
+                extra.append(v)
+        ctx.rng.shuffle(extra)
+        sample.extend(extra[:400])
     for i, v in enumerate(sample):
         v["id"] = i
     runs = []
